@@ -904,7 +904,9 @@ func runCheck(prop, tier string, seed uint64, workers, budgetOverride int, keep,
 	}
 
 	if tier == "thorough" {
-		gen.MaxDepth = 2000
+		// the library's cost is quadratic in nesting depth (§12.2): at 2000 levels one
+		// call takes minutes, which leaves no schedule search; 600 keeps a call under ~10 s
+		gen.MaxDepth = 600
 	}
 	if prop == "C12" {
 		// the race detector slows every access about tenfold; keep pages moderate
